@@ -89,7 +89,17 @@ def gen_inputs(rng):
     final = "((" + " + ".join(terms) + ") % 100000)"
     if r.chance(0.3) and top.all("L"):
         final = f"[{final}, {r.choice(top.all('L'))}.len()]"
-    if r.chance(0.15):
+    if r.chance(0.12):
+        # the history ends in a loop statement left by `break` (a loop's value is Unit); the input
+        # before it ends in a call, whose value must not be mistaken for the loop's
+        if g.funs:
+            fname, np = r.choice(g.funs)
+            inputs.append([f"{fname}({', '.join(str(r.randint(0, 9)) for _ in range(np))})"])
+        k = r.randint(0, 3)
+        final = r.choice([f"let izf = 0 while True {{ izf += 1 if izf > {k} {{ break }} }}",
+                          f"for qzf in [1, 2, 3] {{ if qzf > {k} {{ break }} }}",
+                          f"let izf = 0 while izf < {k} {{ izf += 1 }}"])
+    elif r.chance(0.15):
         final = "{ " + final + " }"  # a toplevel block evaluates to its last expression
     else:
         # (Garden has no statement separator: an input that begins with `(` or `[` would, in the
